@@ -1411,6 +1411,274 @@ func (r *runner) play(sc *Scenario, is *issued, p *Play, dist []string) {
 	r.put(rrec)
 }
 
+// ---------- the credential level: Credential.MakeSDJWT -> holder -> verifier.Parse, and
+// ParseCredential -> CreateDisplayCredentialMap (direct oracle only) ----------
+
+func removeEmptyObjects(v interface{}) interface{} {
+	switch t := v.(type) {
+	case map[string]interface{}:
+		m := map[string]interface{}{}
+
+		for k, x := range t {
+			y := removeEmptyObjects(x)
+			if ym, ok := y.(map[string]interface{}); ok && len(ym) == 0 {
+				continue
+			}
+
+			m[k] = y
+		}
+
+		return m
+	}
+
+	return v
+}
+
+func (r *runner) runVC(g *gen, v5 bool, alg int) {
+	subject := g.object(2, 3, false)
+	subject = stripNulls(subject).(map[string]interface{})
+	delete(subject, "id")
+	r.runVCSubject(g, subject, v5, alg)
+}
+
+func (r *runner) runVCSubject(g *gen, subject map[string]interface{}, v5 bool, alg int) {
+
+	subjJSON := map[string]interface{}{"id": "did:example:holder"}
+	for k, x := range subject {
+		subjJSON[k] = x
+	}
+
+	credJSON := map[string]interface{}{
+		"@context":          []interface{}{"https://www.w3.org/2018/credentials/v1"},
+		"id":                "http://example.edu/credentials/1872",
+		"type":              []interface{}{"VerifiableCredential"},
+		"issuer":            map[string]interface{}{"id": "did:example:issuer"},
+		"issuanceDate":      "2010-01-01T19:23:24Z",
+		"credentialSubject": subjJSON,
+	}
+
+	sc := map[string]interface{}{"level": "vc", "v5": v5, "alg": alg, "subject": subject}
+	dist := []string{"vc-level", map[bool]string{true: "v5", false: "v2"}[v5], fmt.Sprintf("sha-%d", alg)}
+	fail := func(sig, detail string) {
+		r.put(&hx.Record{Case: sc, Class: "vc|" + sig, Dist: dist, Oracle: "fail", Sig: sig, Detail: detail})
+	}
+
+	cred, err := verifiable.ParseCredential([]byte(jsonOf(credJSON)), verifiable.WithDisabledProofCheck(), verifiable.WithCredDisableValidation())
+	if err != nil {
+		return
+	}
+
+	h := crypto.SHA256
+
+	switch alg {
+	case 384:
+		h = crypto.SHA384
+	case 512:
+		h = crypto.SHA512
+	}
+
+	ver := common.SDJWTVersionV2
+	if v5 {
+		ver = common.SDJWTVersionV5
+	}
+
+	var cfi string
+
+	func() {
+		defer func() {
+			if rec := recover(); rec != nil {
+				err = fmt.Errorf("panic: %v", rec)
+			}
+		}()
+
+		cfi, err = cred.MakeSDJWT(pIssuer.signer, "did:example:issuer#key-1", verifiable.MakeSDJWTWithVersion(ver), verifiable.MakeSDJWTWithHash(h))
+	}()
+
+	if err != nil {
+		fail("vc-make-sdjwt-failed", err.Error())
+		return
+	}
+
+	// the issued structure
+	seg := strings.Split(strings.Split(cfi, common.CombinedFormatSeparator)[0], ".")
+	pb, _ := base64.RawURLEncoding.DecodeString(seg[1])
+
+	var payload map[string]interface{}
+	if json.Unmarshal(pb, &payload) != nil {
+		return
+	}
+
+	vcObj := payload
+	if inner, ok := payload["vc"].(map[string]interface{}); ok {
+		vcObj = inner
+	}
+
+	cs, _ := vcObj["credentialSubject"].(map[string]interface{})
+	s := newSym(alg)
+	discs := common.ParseCombinedFormatForIssuance(cfi).Disclosures
+
+	for _, d := range discs {
+		s.know(d)
+	}
+
+	sites := locate(cs, s)
+
+	var real []string
+
+	for _, d := range discs {
+		if _, ok := sites[d]; ok {
+			real = append(real, d)
+		}
+	}
+
+	sort.Slice(real, func(i, j int) bool { return sites[real[i]].path < sites[real[j]].path })
+
+	// --- through the holder and the verifier: a few parent-closed selections
+	for k := 0; k < 4; k++ {
+		var chosen []string
+
+		in := map[string]bool{}
+
+		for _, d := range real {
+			par := sites[d].parent
+			if (par == "" || in[par]) && (k == 0 || g.r.Intn(2) > 0) {
+				in[d] = true
+				chosen = append(chosen, d)
+			}
+		}
+
+		pres, perr := holder.CreatePresentation(cfi, chosen)
+		if perr != nil {
+			pres = strings.Split(cfi, common.CombinedFormatSeparator)[0]
+		}
+
+		out, verr := verifier.Parse(pres, verifier.WithSignatureVerifier(pIssuer.ver))
+		if verr != nil {
+			fail("vc-honest-rejected", verr.Error())
+			continue
+		}
+
+		outVC, _ := plain(out).(map[string]interface{})
+		if inner, ok := outVC["vc"].(map[string]interface{}); ok {
+			outVC = inner
+		}
+
+		got, _ := outVC["credentialSubject"].(map[string]interface{})
+		hidden := map[string]bool{}
+
+		for d, st := range sites {
+			if !in[d] {
+				hidden[st.path] = true
+			}
+		}
+
+		expObj, _ := prune(plain(subjJSON), nil, hidden)
+		rec := &hx.Record{Case: sc, Class: fmt.Sprintf("vc|verify|%v|n=%d|sel=%d", v5, len(real), len(chosen)), Dist: append([]string{"vc-verify"}, dist...),
+			Observed: map[string]interface{}{"subject": got, "expected": expObj}}
+
+		if !reflect.DeepEqual(expObj, interface{}(got)) {
+			rec.Oracle = "fail"
+			rec.Detail = "credentialSubject " + jsonOf(got) + " differs from visible+chosen " + jsonOf(expObj)
+
+			if reflect.DeepEqual(quirk(expObj, false), quirk(got, false)) {
+				rec.Sig = "array-without-disclosed-element-collapses"
+			} else {
+				rec.Sig = "vc-output-not-visible-plus-chosen"
+			}
+		}
+
+		r.put(rec)
+	}
+
+	// --- ParseCredential + CreateDisplayCredentialMap: all, and (v2: disclosures carry their member names) by name
+	parsed, err := verifiable.ParseCredential([]byte(cfi), verifiable.WithPublicKeyFetcher(verifiable.SingleKey(pIssuer.pub, "Ed25519")),
+		verifiable.WithCredDisableValidation())
+	if err != nil {
+		fail("vc-parse-sdjwt-failed", err.Error())
+		return
+	}
+
+	names := map[string]bool{}
+	for _, d := range real {
+		names[s.parsed[d].name] = true
+	}
+
+	var nameList []string
+	for n := range names {
+		nameList = append(nameList, n)
+	}
+
+	sort.Strings(nameList)
+
+	for k := 0; k < 3; k++ {
+		var given []string
+
+		var opt verifiable.DisplayCredentialOption
+
+		if k == 0 {
+			opt = verifiable.DisplayAllDisclosures()
+			given = nameList
+		} else {
+			for _, n := range nameList {
+				if g.r.Bool() {
+					given = append(given, n)
+				}
+			}
+
+			opt = verifiable.DisplayGivenDisclosures(given)
+		}
+
+		inName := map[string]bool{}
+		for _, n := range given {
+			inName[n] = true
+		}
+
+		disp, derr := parsed.CreateDisplayCredentialMap(opt)
+		if derr != nil {
+			fail("vc-display-failed", derr.Error())
+			continue
+		}
+
+		got, _ := plain(disp["credentialSubject"]).(map[string]interface{})
+
+		// a disclosure is shown iff its name is given and so are the names of all its ancestors
+		shown := map[string]bool{}
+
+		for _, d := range real {
+			par := sites[d].parent
+			if inName[s.parsed[d].name] && (par == "" || shown[par]) {
+				shown[d] = true
+			}
+		}
+
+		hidden := map[string]bool{}
+
+		for d, st := range sites {
+			if !shown[d] {
+				hidden[st.path] = true
+			}
+		}
+
+		expObj, _ := prune(plain(subjJSON), nil, hidden)
+		expObj = removeEmptyObjects(expObj) // CreateDisplayCredential clears empty objects of the subject
+		rec := &hx.Record{Case: sc, Class: fmt.Sprintf("vc|display|%v|n=%d|given=%d", v5, len(real), len(given)), Dist: append([]string{"vc-display"}, dist...),
+			Observed: map[string]interface{}{"subject": got, "expected": expObj, "given": given}}
+
+		if !reflect.DeepEqual(expObj, interface{}(got)) {
+			rec.Oracle = "fail"
+			rec.Detail = "display credentialSubject " + jsonOf(got) + " differs from visible+given " + jsonOf(expObj)
+
+			if reflect.DeepEqual(removeEmptyObjects(quirk(expObj, false)), removeEmptyObjects(quirk(got, false))) {
+				rec.Sig = "array-without-disclosed-element-collapses"
+			} else {
+				rec.Sig = "vc-display-not-visible-plus-given"
+			}
+		}
+
+		r.put(rec)
+	}
+}
+
 // ---------- generators ----------
 
 type gen struct {
@@ -1637,6 +1905,20 @@ func main() {
 			Case *Scenario `json:"case"`
 		}
 
+		var vcc struct {
+			Case struct {
+				Level   string                 `json:"level"`
+				V5      bool                   `json:"v5"`
+				Alg     int                    `json:"alg"`
+				Subject map[string]interface{} `json:"subject"`
+			} `json:"case"`
+		}
+
+		if json.Unmarshal(b, &vcc) == nil && vcc.Case.Level == "vc" {
+			(&runner{tr: tr, kind: "replay", coq: false}).runVCSubject(&gen{r: hx.NewRng(args.Seed)}, vcc.Case.Subject, vcc.Case.V5, vcc.Case.Alg)
+			return
+		}
+
 		must(json.Unmarshal(b, &c))
 
 		if c.Case != nil {
@@ -1706,6 +1988,37 @@ func main() {
 
 		sc.Plays = append(sc.Plays, hbPlays(sel)...)
 		(&runner{tr: tr, kind: "attack", coq: true}).run(sc)
+	}
+
+	// 2b. the v5 issuer on a JSON null claim (reflect.TypeOf(nil).Kind()): an observation about local input, the model
+	// predicts the panic; 2c. the credential level
+	for i := 0; i < 6; i++ {
+		g := &gen{r: rng.Fork(uint64(150000 + i))}
+		sc := g.scenario(false)
+		sc.Opts.V5 = true
+
+		var claims map[string]interface{}
+
+		must(json.Unmarshal([]byte(sc.Claims), &claims))
+		claims[keyNames[g.r.Intn(len(keyNames))]+"n"] = nil
+
+		if i%2 == 1 {
+			claims["wrap"] = map[string]interface{}{"inner": nil, "x": "y"}
+		}
+
+		sc.Claims = jsonOf(claims)
+		sc.Note = "v5 issuer, null claim"
+		(&runner{tr: tr, kind: "issuer-null", coq: true}).run(sc)
+	}
+
+	nVC := 40
+	if thorough {
+		nVC = 400
+	}
+
+	for i := 0; i < nVC; i++ {
+		g := &gen{r: rng.Fork(uint64(170000 + i))}
+		(&runner{tr: tr, kind: "vc", coq: false}).runVC(g, i%2 == 1, []int{256, 384, 512}[i%3])
 	}
 
 	// 3. larger random trees, random parent-closed selections (direct oracle; every 3rd through Coq)
